@@ -26,6 +26,15 @@ thread_local! {
     /// (nested acquisitions seen, max depth seen, acquisitions) on this thread since last reset
     static LOCK_STATS: Cell<(u64, u32, u64)> = const { Cell::new((0, 0, 0)) };
     static LOCK_DEPTH: Cell<u32> = const { Cell::new(0) };
+    static LOCK_POISONED: Cell<bool> = const { Cell::new(false) };
+}
+
+/// did a panic unwind through a held write lock on this thread since the last reset?
+pub fn lock_poisoned() -> bool {
+    LOCK_POISONED.with(|p| p.get())
+}
+pub fn lock_poison_reset() {
+    LOCK_POISONED.with(|p| p.set(false));
 }
 
 pub fn lock_stats_reset() {
@@ -72,6 +81,7 @@ impl Drop for DepthGuard<'_> {
         LOCK_DEPTH.with(|d| d.set(d.get().saturating_sub(1)));
         if self.1 && std::thread::panicking() {
             self.0.poisoned.set(true);
+            LOCK_POISONED.with(|p| p.set(true));
         }
     }
 }
@@ -250,36 +260,55 @@ pub enum FilterCall {
 
 pub type FilterLog = Rc<RefCell<Vec<FilterCall>>>;
 
-/// Recording filter: logs every call, returns the delay it was given as the mean
-/// delay (like the repository's own `TestFilter`).
+/// Recording filter: logs every call.  Without `kalman` it returns the delay it was
+/// given as the mean delay (like the repository's own `TestFilter`) and never
+/// touches the clock; with `kalman` it delegates every call to a real
+/// `KalmanFilter` of that configuration.
 pub struct RecFilter {
     log: FilterLog,
+    inner: Option<statime::filters::KalmanFilter>,
 }
 
 impl fmt::Debug for RecFilter {
     fn fmt(&self, f: &mut fmt::Formatter<'_>) -> fmt::Result {
+        // state is a function of the call log (printed by the config)
         write!(f, "RecFilter")
     }
 }
 
-/// Config of [`RecFilter`]: the shared log.  Its `Debug` prints the log, so the
-/// whole measurement history is part of the canonical state.
+/// Config of [`RecFilter`]: the shared log.  Its `Debug` prints the log when
+/// `in_key`, so the whole measurement history is part of the canonical state.
 #[derive(Clone)]
-pub struct RecCfg(pub FilterLog);
+pub struct RecCfg {
+    pub log: FilterLog,
+    pub in_key: bool,
+    pub kalman: Option<statime::filters::KalmanConfiguration>,
+}
+#[allow(non_snake_case)]
+pub fn RecCfg(log: FilterLog, in_key: bool) -> RecCfg {
+    RecCfg { log, in_key, kalman: None }
+}
 impl fmt::Debug for RecCfg {
     fn fmt(&self, f: &mut fmt::Formatter<'_>) -> fmt::Result {
-        write!(f, "{:?}", self.0.borrow())
+        if self.in_key || self.kalman.is_some() {
+            write!(f, "{:?}", self.log.borrow())
+        } else {
+            write!(f, "RecCfg")
+        }
     }
 }
 
 impl Filter for RecFilter {
     type Config = RecCfg;
     fn new(config: RecCfg) -> Self {
-        config.0.borrow_mut().push(FilterCall::New);
-        RecFilter { log: config.0 }
+        config.log.borrow_mut().push(FilterCall::New);
+        RecFilter { inner: config.kalman.map(statime::filters::KalmanFilter::new), log: config.log }
     }
-    fn measurement<C: Clock>(&mut self, m: Measurement, _clock: &mut C) -> FilterUpdate {
+    fn measurement<C: Clock>(&mut self, m: Measurement, clock: &mut C) -> FilterUpdate {
         self.log.borrow_mut().push(FilterCall::Measurement(m));
+        if let Some(k) = &mut self.inner {
+            return k.measurement(m, clock);
+        }
         let mut u = FilterUpdate::default();
         if let Some(d) = m.delay {
             u.mean_delay = Some(d);
@@ -289,14 +318,23 @@ impl Filter for RecFilter {
         }
         u
     }
-    fn update<C: Clock>(&mut self, _clock: &mut C) -> FilterUpdate {
+    fn update<C: Clock>(&mut self, clock: &mut C) -> FilterUpdate {
         self.log.borrow_mut().push(FilterCall::Update);
+        if let Some(k) = &mut self.inner {
+            return k.update(clock);
+        }
         FilterUpdate::default()
     }
-    fn demobilize<C: Clock>(self, _clock: &mut C) {
+    fn demobilize<C: Clock>(self, clock: &mut C) {
         self.log.borrow_mut().push(FilterCall::Demobilize);
+        if let Some(k) = self.inner {
+            k.demobilize(clock);
+        }
     }
     fn current_estimates(&self) -> FilterEstimate {
+        if let Some(k) = &self.inner {
+            return k.current_estimates();
+        }
         FilterEstimate { offset_from_master: Duration::ZERO, mean_delay: Duration::ZERO }
     }
 }
